@@ -19,6 +19,9 @@ import (
 type PropFunc struct {
 	Fn   string `json:"fn"`
 	Mode string `json:"mode"` // "contract" (full: safety+frame+post) or "sweep" (safety only)
+	// Only: if set, only the obligations of this function whose name matches
+	// count for the property (the others belong to another property's check)
+	Only string `json:"only,omitempty"`
 }
 
 type PropSpec struct {
@@ -223,6 +226,23 @@ func cmdCheck(args []string) int {
 		}
 		if pf.Mode != "sweep" && r.Contract == nil {
 			report("anchor:"+pf.Fn, "anchor", pf.Fn, "", "", "error", "no contract found for function listed as 'contract'", nil)
+		}
+		if pf.Only != "" {
+			re, err := regexp.Compile(pf.Only)
+			if err != nil {
+				report("anchor:"+pf.Fn, "anchor", pf.Fn, "", "", "error", "bad 'only' pattern: "+err.Error(), nil)
+				continue
+			}
+			var keep []*Oblig
+			for _, o := range r.Obligs {
+				if re.MatchString(o.Name) {
+					keep = append(keep, o)
+				}
+			}
+			if len(keep) == 0 {
+				report("anchor:"+pf.Fn+":only", "anchor", pf.Fn, "", "", "error", "contract anchor lost: no obligation of "+pf.Fn+" matches "+pf.Only, nil)
+			}
+			r.Obligs = keep
 		}
 		rs = append(rs, r)
 		fnames = append(fnames, pf.Fn)
